@@ -1,7 +1,7 @@
 (** Pull phase, part 7: MemoInner::update_if_necessary and the read of a memo meet their
     specifications, and so does every level of the index-bounded recursion [lvl]. *)
 From Coq Require Import List ZArith Bool Arith Lia.
-From LV Require Import Reactive.Graph Reactive.GraphLemmas Reactive.GraphInvariant
+From LV Require Import Reactive.Graph Reactive.GraphLemmas Reactive.GraphReplay Reactive.GraphInvariant
                        Reactive.GraphMarkProofs Reactive.GraphPullBase Reactive.GraphPullSteps
                        Reactive.GraphPullDefs Reactive.GraphPullEval Reactive.GraphPullRead
                        Reactive.GraphPullMemo.
@@ -82,6 +82,7 @@ Proof.
   destruct (inv_rest _ _ _ _ I i Hni) as (HL1 & Hunc & _ & Hrcl & Hrwr).
   unfold uncached_ok, GraphInvariant.needs_clean, GraphInvariant.will_run in Hunc, Hrcl, Hrwr.
   rewrite Hd in Hunc, Hrcl, Hrwr. cbn [needs_clean_n will_run_n] in Hrcl, Hrwr.
+  destruct Hunc as [Hunc _].
   unfold memo_update in Hmu.
   (* the decision *)
   set (dec := match st (getn s i) with
@@ -139,9 +140,21 @@ Proof.
     destruct (eval p R false (Some i, true) e sc) as [se v] eqn:Eev.
     assert (Cc : ctx_ok (i :: stk) (Some i, true)) by (unfold ctx_ok; cbn; eauto).
     destruct (eval_spec p i R HR e (Some i, true) sc (i :: stk) i se v Hok (le_n i) Ic Cc L1c Eev)
-      as (Ie & L1e & Pe). cbn [fst] in Pe. unfold TopOK in L1e. cbn [fst] in L1e.
+      as (Ie & L1e & Pe & Ge). cbn [fst] in Pe. unfold TopOK in L1e. cbn [fst] in L1e.
     destruct (pr_above2 _ _ _ _ _ _ Pe i (le_n i)) as (Hcae & Hlee & Hsue).
     assert (Hnce : memob i = true -> st (getn sc i) <> Clean) by (intros _; rewrite Hstc; auto).
+    assert (Hrep : replay_body p i e (rlog (getn se i)) = Some v).
+    { destruct (Ge i eq_refl) as (D & HD & HQ). unfold L1 in L1c.
+      assert (Hrc : rlog (getn sc i) = []).
+      { destruct (inv_frame _ _ _ _ Ic i (or_introl eq_refl)) as (_&_&F3&_).
+        (* the log of a body that is about to run is empty *)
+        unfold sc. rewrite begin_run_getn, Nat.eqb_refl.
+        assert (Hlt : Nat.ltb i (nlen (clear_sources i sa)) = true).
+        { apply Nat.ltb_lt. rewrite (clear_nlen p i sa (inv_wf _ _ _ _ Ia)).
+          rewrite (wf_len p sa (inv_wf _ _ _ _ Ia)). exact Hil. }
+        rewrite Hlt. reflexivity. }
+      rewrite HD, Hrc. cbn [app]. unfold replay_body. cbn [snd] in HQ.
+      specialize (HQ []). rewrite app_nil_r in HQ. rewrite HQ. reflexivity. }
     assert (Hold : cache (getn se i) = old) by (rewrite Hcae, Hcac; reflexivity).
     (* facts about the frames and the subscribers of i, carried from the entry state *)
     assert (Hfr_log : forall k, In k stk -> rlog (getn se k) = rlog (getn s k)).
@@ -172,7 +185,7 @@ Proof.
       - apply in_tracked_of in Hlog as (w & Hw). apply Hnc.
         destruct (inv_frame _ _ _ _ I k Hk) as (_&F2&_). eapply F2; eauto.
       - unfold obs_is in Hsk. rewrite Ho in Hsk. rewrite Nat.eqb_refl in Hsk. discriminate. }
-    destruct (memo_finish p stk i cm c v se Ie L1e Hm Hni Hnl Hroots Hobs Hpe) as (If & Ff & Hstf & Hcaf & Hcsf).
+    destruct (memo_finish p stk i cm e c v se Ie L1e Hd Hrep Hm Hni Hnl Hroots Hobs Hpe) as (If & Ff & Hstf & Hcaf & Hcsf).
     cbv zeta in If, Ff, Hstf, Hcaf, Hcsf.
     rewrite changed_of_eq in Hmu. rewrite <- Hold in Hmu.
     set (sfin := if changed_of cm (cache (getn se i)) v
@@ -254,10 +267,18 @@ Lemma read_memo U R i cm e : decl_of p i = DMemo cm e -> USpec i U -> RSpec i R 
   node_read p U R m c i s = (s', v) ->
   Inv stk t s' /\ TopOK c s' /\ PullRel (S i) stk (fst c) s s' /\
   (memob i = true -> st (getn s' i) = Clean /\ cache (getn s' i) = Some v) /\
-  (sigb i = true -> v = sval (getn s' i)).
+  (sigb i = true -> v = sval (getn s' i)) /\
+  Growth c s s' (fun D => forall rest, rlvl p (S i) m (snd c) i (D ++ rest) = Some (v, rest)).
 Proof.
   intros Hd HU HR m c s stk t s' v Hit I C T Hr. unfold node_read in Hr. rewrite Hd in Hr.
   assert (Hm : memob i = true) by (unfold GraphInvariant.memob; rewrite Hd; auto).
+  assert (Hwr : forall w, fst c = Some w -> w < nlen s /\ i < w).
+  { intros w Hw. pose proof (who_on_stack stk c w C Hw) as Hin.
+    destruct (inv_frame _ _ _ _ I w Hin) as (_&_&_&F4&F5&_). rewrite (wf_len p s (inv_wf _ _ _ _ I)).
+    split; [exact F5|lia]. }
+  assert (Hlv : forall x t0 rest, Bool.eqb t0 (m && snd c) = true ->
+            rlvl p (S i) m (snd c) i ((i, x, t0) :: rest) = Some (x, rest)).
+  { intros x t0 rest Ht. cbn [rlvl]. rewrite Nat.eqb_refl, Hd. rewrite ?Nat.eqb_refl. cbn [andb]. rewrite Ht. reflexivity. }
   assert (Hns : sigb i = false) by (unfold GraphInvariant.sigb; rewrite Hd; auto).
   destruct (frames_above stk t i s I Hit) as (Hni & Hgt).
   destruct (m && snd c) eqn:Et.
@@ -288,9 +309,15 @@ Proof.
     + unfold GraphInvariant.cur. rewrite Hd. reflexivity.
     + split; auto. split; auto. split.
       { rewrite Hw. eapply PullRel_trans; [exact P1|]. eapply PullRel_trans; [apply PullRel_addex; exact P2|exact P3]. }
-      split; [|intros; congruence].
-      intros _. destruct (log_read_other_fields c i (cache_val (getn s2 i)) true true s2 i) as (_&_&->&->&_).
-      split; auto. unfold cache_val. destruct (cache (getn s2 i)); [reflexivity|congruence].
+      split.
+      { intros _. destruct (log_read_other_fields c i (cache_val (getn s2 i)) true true s2 i) as (_&_&->&->&_).
+        split; auto. unfold cache_val. destruct (cache (getn s2 i)); [reflexivity|congruence]. }
+      split; [intros; congruence|].
+      intros w Hw0. destruct (Hwr w Hw0) as (Hwl & Hiw).
+      exists [(i, cache_val (getn s2 i), true)]. split; [|intros rest; apply Hlv; reflexivity].
+      rewrite log_read_rlog_who; auto.
+      * destruct (pr_above _ _ _ _ _ _ P2 w ltac:(lia)) as (Hr2 & _); [discriminate|]. rewrite Hr2, Hrl. reflexivity.
+      * rewrite (pr_len _ _ _ _ _ _ P2), (pr_len _ _ _ _ _ _ P1). exact Hwl.
   - (* untracked *)
     assert (Hs1 : (if m then track c i s else s) = s).
     { destruct m; auto. cbn in Et. apply track_none. apply obs_of_untracked; auto. }
@@ -313,9 +340,15 @@ Proof.
     destruct (Inv_log_untracked p stk t c i (cache_val (getn s2 i)) true s2 I2' C T2) as (I3 & T3 & P3).
     split; auto. split; auto. split.
     { eapply PullRel_trans; [apply PullRel_addex; exact P2|exact P3]. }
-    split; [|intros; congruence].
-    intros _. destruct (log_read_other_fields c i (cache_val (getn s2 i)) false true s2 i) as (_&_&->&->&_).
-    split; auto. unfold cache_val. destruct (cache (getn s2 i)); [reflexivity|congruence].
+    split.
+    { intros _. destruct (log_read_other_fields c i (cache_val (getn s2 i)) false true s2 i) as (_&_&->&->&_).
+      split; auto. unfold cache_val. destruct (cache (getn s2 i)); [reflexivity|congruence]. }
+    split; [intros; congruence|].
+    intros w Hw0. destruct (Hwr w Hw0) as (Hwl & Hiw).
+    exists [(i, cache_val (getn s2 i), false)]. split; [|intros rest; apply Hlv; reflexivity].
+    rewrite log_read_rlog_who; auto.
+    + destruct (pr_above _ _ _ _ _ _ P2 w ltac:(lia)) as (Hr2 & _); [discriminate|]. rewrite Hr2. reflexivity.
+    + rewrite (pr_len _ _ _ _ _ _ P2). exact Hwl.
 Qed.
 
 (* ---------------------------------------------------------------- every level *)
@@ -335,7 +368,10 @@ Proof.
         -- apply (read_memo _ _ n c0 e Hd IHU IHR m c s stk t s' v Hjt I C T HR).
         -- apply (read_der p wfp _ _ n e Hd IHR m c s stk t s' v Hjt I C T HR).
         -- unfold GraphInvariant.effb in He. rewrite Hd in He. discriminate.
-      * apply (IHR m c j s stk t s' v ltac:(lia) Hjt He I C T HR).
+      * destruct (IHR m c j s stk t s' v ltac:(lia) Hjt He I C T HR) as (A1 & A2 & A3 & A4 & A5 & A6).
+        split; auto. split; auto. split; auto. split; auto. split; auto.
+        intros w Hw. destruct (A6 w Hw) as (D & HD & HQ). exists D. split; auto.
+        intros rest. cbn [rlvl]. destruct (Nat.eqb_spec j n); [congruence|]. apply HQ.
 Qed.
 
 End P.
